@@ -78,6 +78,34 @@ def main(tier='quick'):
             diff = [c for c in range(65536) if table[c] != tables[cls][c]][:5]
             v.report({'site': 'statuses.Status', 'clause': 'history-dependent'},
                      'classification for %s depends on earlier lookups, e.g. codes %s' % (metas[-1]['class'], [hex(c) for c in diff]), replay=metas[-1])
+    # several threads classify at the same time (every association thread does): the answer for a pair must be the one
+    # the sequential sweep gave - which TLC judges below
+    import threading
+    hot = [(code, cls) for code in (0x0000, 0xFF00, 0xFE00, 0xB000, 0xA700, 0xC123, 0x0110, 0xFF01) for cls in (dm.CStoreRSPMessage, dm.CFindRSPMessage, dm.CMoveRSPMessage, dm.CEchoRSPMessage)]
+    wrong, stop_at = [], __import__('time').time() + (2.0 if tier == 'quick' else 20.0)
+
+    def hammer(k):
+        r = random.Random(k)
+        n = 0
+        while __import__('time').time() < stop_at and len(wrong) < 5:
+            code, cls = hot[r.randrange(len(hot))]
+            got = classify(code, cls)
+            if got != tables[cls][code]:
+                wrong.append((hex(code), cls.__name__, got, tables[cls][code]))
+            n += 1
+    old = sys.getswitchinterval()
+    sys.setswitchinterval(1e-6)
+    try:
+        ths = [threading.Thread(target=hammer, args=(k,)) for k in range(4)]
+        for t in ths:
+            t.start()
+        for t in ths:
+            t.join()
+    finally:
+        sys.setswitchinterval(old)
+    for w in wrong[:3]:
+        v.report({'site': 'statuses.Status', 'clause': 'concurrent-classification-differs'},
+                 'with four threads classifying at once Status(%s, %s) came out as %r, sequentially it is %r' % w, replay={'class': w[1], 'pass': 'concurrent'})
     # request classes given as `command` must behave like their own table lookups too: same judgment, cmd = their field
     res, stats = tlc.validate_traces('Trace_StatusClass', 'Trace_StatusClass.cfg', [[c] for c in cases], chunk=100, timeout=3000)
     for meta, c, r in zip(metas, cases, res):
